@@ -210,7 +210,7 @@ def TookNone (s s' : State) : Prop :=
   (∀ y ∈ s.heap, y.alive = true → y ∈ s'.heap) ∧ (∀ y ∈ s'.heap, y.alive = true → y ∈ s.heap) ∧
   s'.log = s.log ∧ s'.nextSerial = s.nextSerial ∧ s'.waits = s.waits ∧ s'.alive = s.alive
 
-theorem cancel_cases {H : Heap} (hH : HeapSpec H) {s : State} (hi : Inv s) (id exc : Nat) :
+theorem c12_cancel_cases {H : Heap} (hH : HeapSpec H) {s : State} (hi : Inv s) (id exc : Nat) :
     (∃ e, (stepCancel H s id exc).2 = Res.flag true ∧ e.id = id ∧ TookOne s (stepCancel H s id exc).1 e ∧
           (stepCancel H s id exc).1.log = s.log ++ [mkDone e (Fate.cancelled exc) s.nextSerial]) ∨
     ((stepCancel H s id exc).2 = Res.flag false ∧ TookNone s (stepCancel H s id exc).1 ∧
@@ -250,7 +250,7 @@ theorem c12_cancel_true {H : Heap} (hH : HeapSpec H) {s : State} (h : Reachable 
   have hi := reachable_inv hH h
   unfold step
   simp only [hal, if_true]
-  rcases cancel_cases hH hi id exc with ⟨e, c1, c2, c3, c4⟩ | ⟨c1, c2, c3⟩
+  rcases c12_cancel_cases hH hi id exc with ⟨e, c1, c2, c3, c4⟩ | ⟨c1, c2, c3⟩
   · refine ⟨⟨fun _ => c1, fun _ => ⟨e, c3.1, c3.2.1, c2⟩⟩, fun _ => ⟨e, c2, c3, c4⟩⟩
   · refine ⟨⟨?_, ?_⟩, ?_⟩
     · rintro ⟨y, hy, ha, hid⟩; exact absurd hid (c3 y hy ha)
@@ -266,7 +266,7 @@ theorem c12_cancel_false_noop {H : Heap} (hH : HeapSpec H) {s : State} (h : Reac
   have hi := reachable_inv hH h
   unfold step
   simp only [hal, if_true]
-  rcases cancel_cases hH hi id exc with ⟨e, _, c2, c3, _⟩ | ⟨c1, c2, _⟩
+  rcases c12_cancel_cases hH hi id exc with ⟨e, _, c2, c3, _⟩ | ⟨c1, c2, _⟩
   · exact absurd c2 (hno e c3.1 c3.2.1)
   · exact ⟨c1, c2⟩
 
@@ -282,7 +282,7 @@ theorem c12_cancel_twice {H : Heap} (hH : HeapSpec H) {s : State} (h : Reachable
   have hi1 := reachable_inv hH h1
   have hstep : (step H s (Op.cancel id exc)).1 = (stepCancel H s id exc).1 := by
     unfold step; simp [hal]
-  rcases cancel_cases hH hi id exc with ⟨e, _, c2, c3, _⟩ | ⟨_, c2, c3⟩
+  rcases c12_cancel_cases hH hi id exc with ⟨e, _, c2, c3, _⟩ | ⟨_, c2, c3⟩
   · have hal1 : (step H s (Op.cancel id exc)).1.alive = true := by rw [hstep, c3.2.2.2.2.2.2]; exact hal
     refine (c12_cancel_false_noop hH h1 hal1 id exc' ?_).1
     rw [hstep]
